@@ -188,6 +188,49 @@ let () =
             (if order = [] then "-" else String.concat "," order)
         | _ -> ()
       end
+      else if String.length line > 6 && String.sub line 0 6 = "IN HL " then begin
+        (* lifetime of the shared state (Model/HandoffLife.v): oracle bit i-1 = consumer i's receiver destroys its
+           operation state inside the signal *)
+        match String.split_on_char ' ' line with
+        | [_; _; id; kind; chan; ncons; obits; sch] ->
+          let k = (match kind with "SP" -> HSplit | "ES" -> HEnsure | _ -> HTuple) in
+          let nc = int_of_string ncons in
+          let c = (match chan with
+              | "V" -> CVal (ns [1; 2]) | "E" -> CErr (n_of_int 105) | _ -> CStopped) in
+          let inside i = i >= 1 && i <= String.length obits && obits.[i - 1] = '1' in
+          let o (cn : nat) : bool = inside (int_of_nat cn) in
+          let sched = List.map (fun s -> nat_of_int (int_of_string s)) (split_on ',' sch) in
+          let (sites, ((g, lf), _)) = hl_trace k c (nat_of_int nc) o sched ((h_init k, hl_init k (nat_of_int nc)), hl_locals) [] in
+          let project i (e : ev) : string =
+            match e with
+            | Abort -> "abort"
+            | Sig (CVal vs) when k = HTuple ->
+              (match List.nth_opt vs (i - 1) with Some v -> "V:" ^ str_vals [v] | None -> "V:")
+            | Sig c0 -> str_c c0 in
+          let log = List.rev g.h_log in
+          let by_of i = (match List.filter (fun ((cn, _), _) -> int_of_nat cn = i) log with
+              | ((_, by), _) :: _ -> int_of_nat by | [] -> -1) in
+          let per = List.init nc (fun j ->
+              let i = j + 1 in
+              let es = List.filter (fun ((cn, _), _) -> int_of_nat cn = i) log in
+              match es with
+              | [] -> "0:-:-1"
+              | ((_, by), e) :: _ -> Printf.sprintf "%d:%s:%d" (List.length es) (project i e) (int_of_nat by)) in
+          (* the thread on which the last reference was released *)
+          let freed = if lf.l_alive then "-" else
+              (match lf.l_rel with
+               | [] -> "?"
+               | h :: _ -> let h = int_of_nat h in
+                 string_of_int (if h = 0 then 0 else if inside h then by_of h else h)) in
+          let bad = List.rev_map (fun (t, pc) -> Printf.sprintf "%d.%d" (int_of_nat t) (int_of_nat (h_site pc))) lf.l_bad in
+          let rec dedup l = (match l with a :: (b :: _ as r) -> if a = b then dedup r else a :: dedup r | _ -> l) in
+          let bad = dedup bad in
+          Printf.printf "OUT HL %s sites=%s sig=%s freed=%s bad=%s allocs=1\n" id
+            (let l = List.map (fun s -> string_of_int (int_of_nat s)) sites in if l = [] then "-" else String.concat "," l)
+            (if per = [] then "-" else String.concat "|" per)
+            freed (if bad = [] then "-" else String.concat "," bad)
+        | _ -> ()
+      end
       else if String.length line > 6 && String.sub line 0 6 = "IN JN " then begin
         match String.split_on_char ' ' line with
         | [_; _; id; _kind; n; comps; sch] ->
